@@ -175,8 +175,15 @@ class AirTouchSocket(Generic[comms.Hdr]):
     async def close(self) -> None:
         """Close the socket to the AirTouch."""
         if self.is_open:
-            await self._disconnect()
             self.is_open = False
+            # Stop any connection attempt that is still pending or in flight
+            # (including a delayed retry) and the read loop. Otherwise the
+            # connection could be (re-)established after the socket was closed.
+            current_task = asyncio.current_task()
+            for task in list(self._background_tasks):
+                if task is not current_task:
+                    task.cancel()
+            await self._disconnect()
 
     async def send(self, message: comms.Message, retry_policy: RetryPolicy) -> None:
         """Send a message to the AirTouch.
@@ -294,6 +301,10 @@ class AirTouchSocket(Generic[comms.Hdr]):
         task.add_done_callback(discard_task)
 
     async def _connect(self) -> None:
+        if not self.is_open:
+            _LOGGER.debug("_connect ignored. Socket is closed")
+            return
+
         if self.is_connected:
             _LOGGER.debug("_connect ignored. Already connected")
             return
@@ -324,7 +335,7 @@ class AirTouchSocket(Generic[comms.Hdr]):
         finally:
             self._connecting = False
 
-        if not self.is_connected:
+        if not self.is_connected and self.is_open:
             # Connection failed, so retry after a small delay
             self._schedule(self._connect(), delay=_CONNECT_RETRY_DELAY)
 
@@ -549,7 +560,12 @@ class AirTouchSocket(Generic[comms.Hdr]):
 T = TypeVar("T")
 
 
-async def _delay(coro: Awaitable[T], delay: float) -> T:
-    """Delays the execution of an awaitable."""
-    await asyncio.sleep(delay)
+async def _delay(coro: Coroutine[Any, Any, T], delay: float) -> T:
+    """Delays the execution of a co-routine."""
+    try:
+        await asyncio.sleep(delay)
+    except asyncio.CancelledError:
+        # The co-routine will never be started.
+        coro.close()
+        raise
     return await coro
